@@ -156,6 +156,8 @@ class C12:
             toks = draw(gen_text.text_tokens(opts, flags, max_items=5, allow_unknown=False, bad_p=0.0))
             toks = [t for t in toks]
             us = [draw(unknown_item()) for _ in range(3)]
+            # a comment in front of the unknown item belongs to that item: it is skipped with it
+            us = [(draw(st.sampled_from(["# about the unknown item\n", "/* about it */ ", "// it\n"])) + u) if draw(st.integers(0, 3)) == 0 else u for u in us]
             return {"schema": sc, "flags": flags, "tokens": toks, "unknowns": us}
         return case()
 
